@@ -42,7 +42,11 @@ def call(op: str, a: dict) -> dict:
             def f(shape):
                 seen.append([int(s) for s in shape])
                 flat = np.arange(1.0, n + 1)
-                return flat if n % 2 else flat.reshape(tuple(shape), order="F")
+                # an array of the requested shape in whatever memory layout the function happens to produce (numpy's own
+                # generators return C-ordered arrays), or a flat vector in first-index-fastest order
+                if n % 2 and bind.get_layout() == "default":
+                    return flat
+                return bind.lay(flat.reshape(tuple(shape), order="F"))
             r = ttb.tensor.from_function(f, tuple(a["shape"]))
             return {"st": "ok", "obj": bind.alpha(r), "argshape": seen[0] if len(seen) == 1 else []}
         if op in ("tendiag", "sptendiag"):
